@@ -299,6 +299,18 @@ func Execute(p Prop, driverPath string, seed uint64, tier string, replay []strin
 	if replay != nil {
 		lines = replay
 	} else {
+		// corpus of minimised past failures (incl. witnesses of fixed findings) runs first
+		if dir := os.Getenv("VERIF_DIR"); dir != "" {
+			if b, err := os.ReadFile(dir + "/corpus/" + p.ID() + ".txt"); err == nil {
+				for _, l := range strings.Split(string(b), "\n") {
+					l = strings.TrimSpace(l)
+					if l != "" && !strings.HasPrefix(l, "#") {
+						lines = append(lines, l)
+					}
+				}
+				res.Count("corpus", len(lines))
+			}
+		}
 		r := NewRng(seed)
 		p.Gen(r, tier, func(l string) { lines = append(lines, l) })
 	}
